@@ -202,6 +202,7 @@ type world struct {
 	pairs     []*ConnPair
 	nextPort  int
 	udp       map[string]*UDPConn
+	udpAll    []*UDPConn
 	DialLog   []DialRec
 }
 
@@ -805,6 +806,7 @@ type UDPConn struct {
 	// statistics
 	Lost, Duplicated, Delivered, Truncated int
 	Sent                                   [][]byte
+	Received                               [][]byte // datagrams handed to ReadFromUDP, in order
 	dummy                                  bool
 }
 
@@ -822,6 +824,13 @@ func ResolveUDPAddr(network, address string) (*UDPAddr, error) {
 		ip = stdnet.IPv4(127, 0, 0, 1)
 	}
 	return &UDPAddr{IP: ip, Port: p}, nil
+}
+
+// UDPSockets returns every UDP socket ever bound (open or closed).
+func UDPSockets() []*UDPConn {
+	w.mu.Lock()
+	defer w.mu.Unlock()
+	return append([]*UDPConn(nil), w.udpAll...)
 }
 
 // ListenUDP binds a simulated UDP socket.
@@ -842,6 +851,7 @@ func ListenUDP(network string, laddr *UDPAddr) (*UDPConn, error) {
 	}
 	u := &UDPConn{addr: laddr, key: key, notify: make(chan struct{})}
 	w.udp[key] = u
+	w.udpAll = append(w.udpAll, u)
 	return u, nil
 }
 
@@ -885,6 +895,7 @@ func (u *UDPConn) ReadFromUDP(b []byte) (int, *UDPAddr, error) {
 				u.Truncated++
 			}
 			u.Delivered++
+			u.Received = append(u.Received, append([]byte(nil), d.data...))
 			u.mu.Unlock()
 			return n, d.from, nil
 		}
